@@ -44,6 +44,15 @@ var requestReplacer = strings.NewReplacer(
 	"\n", "\\n",
 )
 
+// oneLine keeps a placeholder value on one line. Text that reaches a
+// placeholder decoded (URL path, query arguments, fragment) or through
+// another middleware (the basic auth user name) can contain CR and LF
+// even though the request line and header fields cannot; written to an
+// access log as it is, it would let a single request forge log lines.
+func oneLine(s string) string {
+	return requestReplacer.Replace(s)
+}
+
 var now = time.Now
 
 // Replacer is a type which can replace placeholder
@@ -260,7 +269,8 @@ func (r *replacer) getPeerCert() *x509.Certificate {
 func (r *replacer) getSubstitution(key string) string {
 	// search custom replacements first
 	if value, ok := r.customReplacements[key]; ok {
-		return value
+		// set by other middleware, possibly from request text (basic auth user name)
+		return oneLine(value)
 	}
 
 	// search request headers then
@@ -294,7 +304,7 @@ func (r *replacer) getSubstitution(key string) string {
 	if key[1] == '?' {
 		query := r.request.URL.Query()
 		name := key[2 : len(key)-1]
-		return query.Get(name)
+		return oneLine(query.Get(name))
 	}
 	// next check for environment variable
 	if key[1] == '$' {
@@ -335,7 +345,7 @@ func (r *replacer) getSubstitution(key string) string {
 		return host
 	case "{path}":
 		u, _ := r.request.Context().Value(OriginalURLCtxKey).(url.URL)
-		return u.Path
+		return oneLine(u.Path)
 	case "{path_escaped}":
 		u, _ := r.request.Context().Value(OriginalURLCtxKey).(url.URL)
 		return url.QueryEscape(u.Path)
@@ -343,7 +353,7 @@ func (r *replacer) getSubstitution(key string) string {
 		reqid, _ := r.request.Context().Value(RequestIDCtxKey).(string)
 		return reqid
 	case "{rewrite_path}":
-		return r.request.URL.Path
+		return oneLine(r.request.URL.Path)
 	case "{rewrite_path_escaped}":
 		return url.QueryEscape(r.request.URL.Path)
 	case "{query}":
@@ -354,7 +364,7 @@ func (r *replacer) getSubstitution(key string) string {
 		return url.QueryEscape(u.RawQuery)
 	case "{fragment}":
 		u, _ := r.request.Context().Value(OriginalURLCtxKey).(url.URL)
-		return u.Fragment
+		return oneLine(u.Fragment)
 	case "{proto}":
 		return r.request.Proto
 	case "{remote}":
@@ -391,10 +401,10 @@ func (r *replacer) getSubstitution(key string) string {
 		return strconv.FormatInt(nanoToMilliseconds(now().UnixNano()), 10)
 	case "{file}":
 		_, file := path.Split(r.request.URL.Path)
-		return file
+		return oneLine(file)
 	case "{dir}":
 		dir, _ := path.Split(r.request.URL.Path)
-		return dir
+		return oneLine(dir)
 	case "{request}":
 		dump, err := httputil.DumpRequest(r.request, false)
 		if err != nil {
